@@ -263,6 +263,10 @@ def check(run):
     ncw = engines.copies_within_source(run, [f for f in fx.repo_functions() if q.top_function(fx, f).cls in (U, 'sim::asio::ip::tcp::socket')])
     if ncw < 2:
         run.broke('fewer than 2 copies out of packet payloads found (udp receive_from_impl, tcp read_some_impl)')
+    run.clause('for all datagram and buffer sizes: the size of a user buffer (or a sum of them) is not converted to int before it has been bounded - the 65535 test sees the real total (shared with C05)')
+    nus = engines.user_sizes_not_narrowed(run, [f_ for f_ in fx.repo_functions() if q.top_function(fx, f_).cls in (U, 'sim::asio::ip::tcp::socket')])
+    if nus < 3:
+        run.broke('fewer than 3 conversions of user buffer sizes to int found in the sockets (%d)' % nus)
     run.clause('a datagram goes only to the socket bound to exactly the destination endpoint: registry lookups select by exact key (shared with C11)')
     import p11
     p11.exact_key_rule(run)
